@@ -1287,7 +1287,22 @@ static void w_parse(int a)
 	if (w_parse_flags < 0 && text[n - 1] == '}' && n > 2 && vh_below(3) == 0)
 	{
 		/* a repeated member name: the first position is kept, the last value wins */
+		/* (the repeated name is one the object has - whatever value it holds there, null included - or k1 / k2) */
+		static char extrabuf[64];
 		const char *extra = vh_below(2) ? ",\"k1\":[7]}" : ", \"k2\" : \"z\\u00e9\"}";
+		if (json_object_get_type(node[a]) == json_type_object && json_object_object_length(node[a]) > 0 && vh_below(3))
+		{
+			int j = (int)vh_below((uint32_t)json_object_object_length(node[a])), i = 0;
+			json_object_object_foreach(node[a], key, val)
+			{
+				(void)val;
+				if (i++ == j && strlen(key) < 8)
+				{
+					snprintf(extrabuf, sizeof extrabuf, ",\"%s\":%s}", key, vh_below(2) ? "2" : "null");
+					extra = extrabuf;
+				}
+			}
+		}
 		if (text[n - 2] == '{' || (n >= 3 && text[n - 2] == ' ' && text[n - 3] == '{'))
 			extra++; /* (an empty object: no comma) */
 		n--;
